@@ -28,3 +28,15 @@ func (svr *Server) VerifServe(conn net.Conn) error {
 	_, err := svr.handleConnection(conn)
 	return err
 }
+
+// VerifAckWindow, when set, is called by publish/subscribe/unsubscribe/ping
+// after the request has been written and before it is registered in its ack
+// queue, so a harness can let the acknowledgement be processed inside that
+// window.
+var VerifAckWindow func(conn io.Closer, kind string)
+
+func verifAckWindow(conn io.Closer, kind string) {
+	if f := VerifAckWindow; f != nil {
+		f(conn, kind)
+	}
+}
